@@ -95,6 +95,26 @@ func collect(inv *bill.Invoice, negate bool) figures {
 	return f
 }
 
+// RemoveIncludedTaxes raises every price and fixed amount by two decimals and
+// divides; beyond 2^52 / 10^4 units the float detour of num.Amount is no longer
+// exact (C05's domain) and int64 can overflow: outside the property's domain.
+func tooLargeForRemoval(inv *bill.Invoice) bool {
+	lim := int64(1) << 38
+	big := func(a num.Amount) bool { v := a.Value(); return v > lim || v < -lim }
+	if inv.Totals != nil && (big(inv.Totals.Sum) || big(inv.Totals.TotalWithTax)) {
+		return true
+	}
+	for _, l := range inv.Lines {
+		if l.Item != nil && l.Item.Price != nil && big(*l.Item.Price) {
+			return true
+		}
+		if l.Total != nil && big(*l.Total) {
+			return true
+		}
+	}
+	return false
+}
+
 func ratText(a num.Amount) string {
 	d := new(big.Int).Exp(big.NewInt(10), big.NewInt(int64(a.Exp())), nil)
 	return new(big.Rat).SetFrac(big.NewInt(a.Value()), d).RatString()
@@ -254,7 +274,7 @@ func Run(c *core.Ctx) int {
 		}
 
 		// --- removing included taxes
-		if d.Includes != "" && d.Rounding == nil {
+		if d.Includes != "" && d.Rounding == nil && !tooLargeForRemoval(inv) {
 			c.Count("relation:remove-included", 1)
 			inv3 := d.Invoice()
 			_ = inv3.Calculate()
